@@ -587,3 +587,65 @@ M('C03', 'outputs-indexed-at-insertion-point', STR, 'outputs[key] if key < len(o
 M('C03', 'clear-on-optional-metadata-flag', MNB, '        "/cells/*/cell_type": "fail",\n', '        "/cells/*/cell_type": "fail",\n        "/cells/*/metadata/collapsed": "clear",\n', 'R03.10')
 T('C03', 'twin-outputs-bound-written-other-way', STR, 'outputs[key] if key < len(outputs) else None', 'outputs[key] if len(outputs) > key else None')
 T('C03', 'twin-attachments-guarded-lookup', STR, '            base = attachments.get(key)\n', '            base = attachments[key] if key in attachments else None\n')
+
+# ------------------------------------------------------------------------------------------ round-2 rules
+NBDIFF = 'nbdime/nbdiffapp.py'
+LOGPY = 'nbdime/log.py'
+M('C01', 'diff-file-written-unescaped-in-locale-codec', NBDIFF, 'json.dump(d, df, indent=2, separators=(",", ": "))',
+  'json.dump(d, df, indent=2, separators=(",", ": "), ensure_ascii=False)', 'R01.5')
+T('C01', 'twin-diff-file-utf8-both-sides', NBDIFF, '        with open(output, "w") as df:', '        with open(output, "w", encoding="utf8") as df:',
+  edits=[(NBDIFF, 'json.dump(d, df, indent=2, separators=(",", ": "))', 'json.dump(d, df, indent=2, separators=(",", ": "), ensure_ascii=False)')])
+M('C03', 'raise-on-merge-status-above-one', PP, "        status = p.returncode\n        output = output.decode('utf8')\n        # normalize newlines",
+  "        status = p.returncode\n        if status not in (0, 1):\n            raise RuntimeError('merge tool failed')\n        output = output.decode('utf8')\n        # normalize newlines", 'R03.11')
+T('C03', 'twin-raise-on-signal-status-only', PP, "        status = p.returncode\n        output = output.decode('utf8')\n        # normalize newlines",
+  "        status = p.returncode\n        if status < 0:\n            raise RuntimeError('merge tool was killed')\n        output = output.decode('utf8')\n        # normalize newlines")
+M('C07', 'tool-stderr-merged-into-text', PP, "        p = Popen(cmd, cwd=td, stdout=PIPE)\n        output, errors = p.communicate()\n        status = p.returncode\n        output = output.decode('utf8')\n        # normalize newlines",
+  "        p = Popen(cmd, cwd=td, stdout=PIPE, stderr=subprocess.STDOUT)\n        output, errors = p.communicate()\n        status = p.returncode\n        output = output.decode('utf8')\n        # normalize newlines", 'R07.5')
+T('C07', 'twin-tool-stderr-captured-separately', PP, "        p = Popen(cmd, cwd=td, stdout=PIPE)\n        output, errors = p.communicate()\n        status = p.returncode\n        output = output.decode('utf8')\n        # normalize newlines",
+  "        p = Popen(cmd, cwd=td, stdout=PIPE, stderr=PIPE)\n        output, errors = p.communicate()\n        status = p.returncode\n        output = output.decode('utf8')\n        # normalize newlines")
+M('C08', 'logging-to-stdout', LOGPY, 'logging.basicConfig(format=format, level=level)', 'logging.basicConfig(format=format, level=level, stream=sys.stdout)', 'R08.6',
+  edits=[(LOGPY, 'import logging\n', 'import logging\nimport sys\n')])
+T('C08', 'twin-logging-to-explicit-stderr', LOGPY, 'logging.basicConfig(format=format, level=level)', 'logging.basicConfig(format=format, level=level, stream=sys.stderr)',
+  edits=[(LOGPY, 'import logging\n', 'import logging\nimport sys\n')])
+M('C08', 'whitespace-garbage-treated-as-empty-input', UT, "                    if len(fo.read(10)) != 0:\n                        raise", "                    if fo.read(10).strip():\n                        raise", 'R08.7')
+T('C08', 'twin-emptiness-by-truthiness', UT, "                    if len(fo.read(10)) != 0:\n                        raise", "                    if fo.read(1):\n                        raise")
+M('C09', 'combine-patches-groups-before-sort', STR, "    patches = {}\n    newdiffs = []\n    for d in diffs:\n        if d.op == DiffOp.PATCH:",
+  "    patches = {}\n    newdiffs = []\n    newdiffs.extend(d for d in diffs if d.op == DiffOp.REMOVERANGE)\n    diffs = [d for d in diffs if d.op != DiffOp.REMOVERANGE]\n    for d in diffs:\n        if d.op == DiffOp.PATCH:", 'R09.8')
+T('C09', 'twin-combine-patches-explicit-tiebreak', STR, "    return sorted(newdiffs, key=lambda x: x.key)", "    newdiffs.sort(key=lambda x: x.key)\n    return newdiffs")
+M('C09', 'side-skipped-when-equal-to-base', MNB, "    local_diffs = diff_notebooks(base, local)\n", "    local_diffs = diff_notebooks(base, local) if local != base else []\n", 'R09.9')
+M('C09', 'merger-deduplicates-decisions', MG, "    if any([decisions.decisions[i] == decisions.decisions[j]",
+  "    decisions.decisions = [d for i, d in enumerate(decisions.decisions) if d not in decisions.decisions[:i]]\n    if any([decisions.decisions[i] == decisions.decisions[j]", 'R09.10')
+M('C10', 'items-inherit-list-strategy', MG, "    item_strategy = strategies.get(item_spath)\n\n    transients = strategies.transients",
+  "    item_strategy = strategies.get(item_spath) or list_strategy\n\n    transients = strategies.transients", 'R10.6')
+T('C10', 'twin-strategy-lookup-with-default', MG, "    item_strategy = strategies.get(item_spath)\n\n    transients = strategies.transients",
+  "    item_strategy = strategies.get(item_spath, None)\n\n    transients = strategies.transients")
+M('C11', 'push-patch-wraps-empty-side', DEC, "        dec.remote_diff = [op_patch(key, dec.remote_diff)] if dec.remote_diff else []",
+  "        dec.remote_diff = [op_patch(key, dec.remote_diff)] if dec.remote_diff is not None else []", 'R11.2')
+M('C11', 'add-or-replace-by-truthiness', STR, '    if "nbdime-conflicts" in base:', '    if base.get("nbdime-conflicts"):', 'R11.9')
+T('C11', 'twin-add-or-replace-negated', STR, "            if local_name in attachments:\n                nbdime.log.warning(\n                    \"Replacing previous conflicted attachment with filename %r\", local_name)\n                custom_diff += [op_replace(local_name, local)]\n            else:\n                custom_diff += [op_add(local_name, local)]",
+  "            if local_name not in attachments:\n                custom_diff += [op_add(local_name, local)]\n            else:\n                nbdime.log.warning(\n                    \"Replacing previous conflicted attachment with filename %r\", local_name)\n                custom_diff += [op_replace(local_name, local)]")
+M('C12', 'lazy-global-config-snapshot', MG, "        config=copy.copy(notebook_config)\n", "        config=_insert_config()\n", 'R12.1',
+  edits=[(MG, "def _split_addrange(key, local, remote, path, item_strategy):", "_cfg = None\n\n\ndef _insert_config():\n    global _cfg\n    if _cfg is None:\n        _cfg = copy.copy(notebook_config)\n    return _cfg\n\n\ndef _split_addrange(key, local, remote, path, item_strategy):")])
+M('C13', 'combine-patches-reuses-callers-entry', STR, "                p = op_patch(d.key, combine_patches(d.diff))\n", "                p = d\n", 'R13.1')
+M('C14', 'key-filter-unwraps-previous-filter', NBD, "    def ignored_diff(*args, **kwargs):\n        d = inner_differ(*args, **kwargs)",
+  "    inner_differ = getattr(inner_differ, 'wrapped', inner_differ)\n\n    def ignored_diff(*args, **kwargs):\n        d = inner_differ(*args, **kwargs)", 'R14.6')
+M('C15', 'py-combine-patches-extra-tiebreak', STR, "    return sorted(newdiffs, key=lambda x: x.key)", "    return sorted(newdiffs, key=lambda x: (x.key, x.op != DiffOp.ADDRANGE))", 'R15.6')
+T('C15', 'twin-py-combine-patches-attrgetter', STR, "    return sorted(newdiffs, key=lambda x: x.key)", "    return sorted(newdiffs, key=lambda entry: entry.key)")
+M('C16', 'ignore-verdicts-cached-on-class', PP, "    def should_ignore_path(self, path):\n        starred = star_path(split_path(path))",
+  "    _verdicts = {}\n\n    def should_ignore_path(self, path):\n        if path in self._verdicts:\n            return self._verdicts[path]\n        self._verdicts[path] = v = self._should_ignore_path(path)\n        return v\n\n    def _should_ignore_path(self, path):\n        starred = star_path(split_path(path))", 'R16.6')
+T('C16', 'twin-ignore-verdicts-cached-per-instance', PP, "    def should_ignore_path(self, path):\n        starred = star_path(split_path(path))",
+  "    def should_ignore_path(self, path):\n        cache = self.__dict__.setdefault('_verdicts', {})\n        if path in cache:\n            return cache[path]\n        cache[path] = v = self._should_ignore_path(path)\n        return v\n\n    def _should_ignore_path(self, path):\n        starred = star_path(split_path(path))")
+M('C16', 'no-newline-marker-unanchored', PP, 'r = re.compile(r"^\\\\ No newline at end of file\\n?", flags=re.M)', 'r = re.compile(r"\\\\ No newline at end of file\\n?")', 'R16.7')
+T('C16', 'twin-no-newline-marker-multiline-flag-spelled-out', PP, 'r = re.compile(r"^\\\\ No newline at end of file\\n?", flags=re.M)', 'r = re.compile(r"^\\\\ No newline at end of file\\n?", flags=re.MULTILINE)')
+M('C18', 'removal-status-becomes-exit-status', DDR, "    try:\n        check_call(cmd + ['--remove-section', 'diff.jupyternotebook'])\n    except CalledProcessError:\n        # already unset\n        pass",
+  "    import subprocess\n    return subprocess.call(cmd + ['--remove-section', 'diff.jupyternotebook'])", 'R18.6',
+  edits=[(DDR, "        opts.config_func(opts.scope)\n        return 0", "        return opts.config_func(opts.scope) or 0")])
+T('C18', 'twin-config-arm-forwards-none', DDR, "        opts.config_func(opts.scope)\n        return 0", "        return opts.config_func(opts.scope) or 0")
+M('C19', 'duplicate-directory-skipped-in-reverse-walk', CFGPY, "    for path in path[::-1]:\n        # path list is in descending priority order, so load files backwards:\n",
+  "    seen = set()\n    for path in path[::-1]:\n        # path list is in descending priority order, so load files backwards:\n        if path in seen:\n            continue\n        seen.add(path)\n", 'R19.3')
+T('C19', 'twin-duplicates-removed-before-the-walk', CFGPY, "    for path in path[::-1]:\n        # path list is in descending priority order, so load files backwards:\n",
+  "    path = list(dict.fromkeys(path))\n    for path in path[::-1]:\n        # path list is in descending priority order, so load files backwards:\n")
+M('C20', 'merge-inputs-cached-across-requests', SRV, "            arg = self.params['mergetool_args'][argname]\n            return self.read_notebook(arg, fail_on_empty=False)",
+  "            cache = self.settings.setdefault('mergetool_notebooks', {})\n            if argname not in cache:\n                cache[argname] = self.read_notebook(self.params['mergetool_args'][argname], fail_on_empty=False)\n            return cache[argname]", 'R20.9')
+M('C20', 'server-whitespace-garbage-treated-as-empty', SRV, "                            if len(fo.read(10)) != 0:\n                                raise", "                            if fo.read(10).strip():\n                                raise", 'R20.10')
+T('C20', 'twin-server-emptiness-by-comparison', SRV, "                            if len(fo.read(10)) != 0:\n                                raise", "                            if len(fo.read(10)) > 0:\n                                raise")
